@@ -149,6 +149,32 @@ def rule_growth(ctx, rule='R13.6'):
     """every write to r->collisions[collisions_N] is preceded in its block by the growth test of the array"""
     n = 0
     samples = []
+
+    def is_growth_if(st):
+        if st.get('kind') != 'IfStmt':
+            return False
+        c = render(st['inner'][0]).replace(' ', '')
+        return 'N_allocated_collisions<=' in c and any('realloc' in render(e['inner'][1]) for e in walk(st['inner'][1]) if is_assign(e))
+    # helpers that guarantee capacity: a function whose body starts (at top level, before any write) with the growth test,
+    # or with a call of such a helper
+    growers = set()
+    allf = {}
+    for cfile in ('collision.c', 'tree.c'):
+        allf.update(cfront.load_tu(cfile).funcs)
+    changed = True
+    while changed:
+        changed = False
+        for fname, fn in allf.items():
+            if fname in growers:
+                continue
+            for st in cfront.body(fn).get('inner', []):
+                s_ = strip(st)
+                if is_growth_if(st) or (s_.get('kind') == 'CallExpr' and callee_name(s_) in growers):
+                    growers.add(fname)
+                    changed = True
+                    break
+                if st.get('kind') not in ('DeclStmt',):
+                    break
     for cfile in ('collision.c', 'tree.c'):
         tu = cfront.load_tu(cfile)
         for fname, fn in tu.funcs.items():
@@ -159,19 +185,19 @@ def rule_growth(ctx, rule='R13.6'):
                     continue
                 grown = False
                 for st in comp.get('inner', []):
-                    if st.get('kind') == 'IfStmt':
-                        c = render(st['inner'][0]).replace(' ', '')
-                        if 'N_allocated_collisions<=' in c and any('realloc' in render(e['inner'][1]) for e in walk(st['inner'][1]) if is_assign(e)):
-                            grown = True
+                    if is_growth_if(st):
+                        grown = True
                     s = strip(st)
-                    if is_assign(s) and re.match(r'^r\.collisions\[\(?\*?collisions_N\)?\](\.|$)', render(s['inner'][0])):
+                    if s.get('kind') == 'CallExpr' and callee_name(s) in growers:
+                        grown = True
+                    if is_assign(s) and re.match(r'^r\.collisions\[[^\]]+\](\.|$)', render(s['inner'][0])) and not re.match(r'^r\.collisions\[(i|new)\]', render(s['inner'][0])):
                         n += 1
                         if not grown:
                             ctx.report(rule, 'collisions:growth:%s' % fname, 'src/%s:%s %s' % (cfile, line_of(s), fname),
                                        'r->collisions[...] is written without the preceding capacity test/realloc: a write beyond the allocated array')
                         if len(samples) < 3:
                             samples.append('src/%s:%s %s' % (cfile, line_of(s), fname))
-    ctx.covered(rule, 'writes to the pending-collision array are preceded by its growth test', n, floor=8, samples=samples)
+    ctx.covered(rule, 'writes to the pending-collision array are preceded by its growth test (inline or through a helper that starts with it)', n, floor=2, samples=samples)
 
 
 def rule_components(ctx):
